@@ -14,6 +14,7 @@
 use proc_macro2::{Delimiter, TokenStream, TokenTree};
 use serde_json::{json, Value};
 use std::collections::BTreeMap;
+use syn::ext::IdentExt;
 use syn::punctuated::Punctuated;
 use syn::{Attribute, Fields, Item, Meta, Token, Type};
 
@@ -250,7 +251,7 @@ fn fields_json(f: &Fields, params: &[String], out: &mut Out, file: &str, item: &
     let mut fs = vec![];
     for (i, fd) in list.iter().enumerate() {
         let a = parse_attrs(&fd.attrs);
-        let fname = fd.ident.as_ref().map(|x| x.to_string());
+        let fname = fd.ident.as_ref().map(|x| x.unraw().to_string());
         let label = fname.clone().unwrap_or_else(|| i.to_string());
         for p in &a.problems {
             out.oblige(file, &format!("{item}.{label}"), p.clone());
@@ -287,7 +288,7 @@ fn relevant(a: &Attrs) -> bool {
 
 fn do_struct(s: &syn::ItemStruct, out: &mut Out, file: &str, module: &str) {
     let a = parse_attrs(&s.attrs);
-    let name = s.ident.to_string();
+    let name = s.ident.unraw().to_string();
     for p in &a.problems {
         out.oblige(file, &name, p.clone());
     }
@@ -310,7 +311,7 @@ fn do_struct(s: &syn::ItemStruct, out: &mut Out, file: &str, module: &str) {
 
 fn do_enum(e: &syn::ItemEnum, out: &mut Out, file: &str, module: &str) {
     let a = parse_attrs(&e.attrs);
-    let name = e.ident.to_string();
+    let name = e.ident.unraw().to_string();
     for p in &a.problems {
         out.oblige(file, &name, p.clone());
     }
@@ -327,7 +328,7 @@ fn do_enum(e: &syn::ItemEnum, out: &mut Out, file: &str, module: &str) {
     let mut vs = vec![];
     for v in &e.variants {
         let va = parse_attrs(&v.attrs);
-        let vname = v.ident.to_string();
+        let vname = v.ident.unraw().to_string();
         for p in &va.problems {
             out.oblige(file, &format!("{name}::{vname}"), p.clone());
         }
